@@ -416,7 +416,14 @@ def execute_orbit(ctx: RunCtx) -> None:
     max_delta = ds.pick([1e-2, 1e-3, 0.1], "orbit.max_delta", (0.6, 0.25, 0.15))   # drawn last: earlier replays stay aligned
     opts = opts.merge(**{"base.convergence.max_delta": max_delta})
     cfgd["max_delta"] = max_delta
-    log.add("cfg.max_delta", fhex(max_delta))
+    fd_jac = ds.flag("orbit.finite_difference_jacobian", 0.15)
+    if fd_jac:
+        # same problem, Jacobian by finite differences instead of the state-transition matrix (a documented configuration field)
+        cc = orbit.correction_config
+        orbit.correction_config = dataclasses.replace(cc, numerical=dataclasses.replace(cc.numerical, finite_difference=True))
+        cfgd["finite_difference"] = True
+        ctx.probe("orbit_fd_jacobian")
+    log.add("cfg.max_delta", fhex(max_delta), fd_jac)
     real_create = _OrbitCorrectionInterface.create_problem
 
     def create_with_faulty_event(self, **kw):
